@@ -94,6 +94,11 @@ Theorem C02_bfs_complete : forall ps, wf_parents ps -> (forall i, (i < length ps
   Permutation (bfs ps) (seq 0 (length ps)).
 Proof. exact bfs_perm. Qed.
 
+From Gen Require Flags.
+Theorem C02_depth_limit_from_source : Flags.MAX_GRAPH_DEPTH = Core.Model.MAX_GRAPH_DEPTH.
+Proof. exact max_graph_depth_from_source. Qed.
+Print Assumptions C02_depth_limit_from_source.
+
 Print Assumptions C02_built_graphs_wellformed.
 Print Assumptions C02_labels_perm.
 Print Assumptions C02_leaves_perm.
